@@ -285,6 +285,14 @@ func prims() []prim {
 			}},
 		{name: "strings", ntok: 1, gen: func(r *hx.Rng) string {
 			n := r.Intn(5)
+			if r.Chance(1, 40) { // around util.MaxPreAllocSize: the pre-allocation cap must not cap the element count
+				n = hx.Pick(r, []int{32767, 32768, 32769, 40000})
+				xs := make([]string, n)
+				for i := range xs {
+					xs[i] = hx.Hex([]byte{byte('a' + i%26)})
+				}
+				return showList(xs)
+			}
 			xs := make([]string, n)
 			for i := range xs {
 				xs[i] = hx.Hex(genBytes(r, 100))
@@ -311,6 +319,14 @@ func prims() []prim {
 			}},
 		{name: "varints", ntok: 1, gen: func(r *hx.Rng) string {
 			n := r.Intn(6)
+			if r.Chance(1, 40) {
+				n = hx.Pick(r, []int{32767, 32768, 32769, 40000})
+				xs := make([]string, n)
+				for i := range xs {
+					xs[i] = strconv.Itoa(i % 300)
+				}
+				return showList(xs)
+			}
 			xs := make([]string, n)
 			g := genInt(32)
 			for i := range xs {
@@ -374,6 +390,28 @@ func main() {
 	r := run.Rng
 	ps := prims()
 	perPrim := run.Scale(150, 3000)
+	// fixed regression cases: arrays longer than the pre-allocation cap round-trip completely
+	for _, p := range ps {
+		if p.name != "strings" && p.name != "varints" {
+			continue
+		}
+		for _, n := range []int{32768, 32769} {
+			xs := make([]string, n)
+			for i := range xs {
+				if p.name == "strings" {
+					xs[i] = "78"
+				} else {
+					xs[i] = strconv.Itoa(i % 128)
+				}
+			}
+			val := showList(xs)
+			var buf bytes.Buffer
+			if err := p.write(&buf, []string{val}); err != nil {
+				continue
+			}
+			run.Case(p.name+"/rt-big", fmt.Sprintf("%s rt r %s -", p.name, val), readOut(p, "r", buf.Bytes(), nil))
+		}
+	}
 	for _, p := range ps {
 		for i := 0; i < perPrim; i++ {
 			val := p.gen(r)
